@@ -11,8 +11,13 @@ mod gen_json;
 mod gen_regex;
 mod cmp;
 mod mon_c01;
+mod mon_c02;
+mod mon_c04;
+mod mon_c05;
+mod mon_c10;
 mod mon_c11;
 mod mon_c12;
+mod mon_c13;
 mod pool;
 mod ref_dfa;
 mod ref_earley;
@@ -102,8 +107,13 @@ fn main() {
             return;
         }
         "C01" => mon_c01::run(&mut ctx),
+        "C02" => mon_c02::run(&mut ctx),
+        "C04" => mon_c04::run(&mut ctx),
+        "C05" => mon_c05::run(&mut ctx),
+        "C10" => mon_c10::run(&mut ctx),
         "C11" => mon_c11::run(&mut ctx),
         "C12" => mon_c12::run(&mut ctx),
+        "C13" => mon_c13::run(&mut ctx),
         _ => {
             eprintln!("unknown property {prop}");
             std::process::exit(2);
